@@ -24,6 +24,9 @@ def run(chk):
     S.check_toplevel_kinds(chk, lib, 'R3.1')
     S.check_dispatch(chk, lib, 'R3.1', 'R3.1')
     S.check_dispatcher(chk, lib, 'R3.1')
+    chk.rule('R3.5', "reader-based oracle: each boundary row is proportional to the boundary quantity computed from the end piece(s) as the evaluation code reads them: "
+                     "S''(end) [- v], S'(end) [- v], or the jump of S''' at the first interior node reduced by that node's C2 row")
+    S.check_rows_against_reader(chk, lib, 'R3.5', 'R3.5', do_interior=False)
     S.check_three_point(chk, lib, 'R3.3')
     S.check_periodic(chk, lib, 'R3.4', 'R3.4')
     chk.explanation = ("Every boundary arm of solve_for_k (5 kinds x 2 ends, the 3-point parabola arm, both periodic arms; n symbolic >= 4 and n = 3) was extracted "
